@@ -53,11 +53,15 @@ fn show_hs(h: &Option<HardState>) -> String {
 
 /// Load an image (None = file absent) with the real FileMetaStore constructor + load_hard_state.
 fn real_file_load(img: Option<&[u8]>) -> String {
-    let d = tempfile::tempdir_in(TMP).unwrap();
+    // one scratch directory per process, reset for every image (each load is a fresh FileMetaStore::new)
+    thread_local! { static DIR: tempfile::TempDir = tempfile::tempdir_in(TMP).unwrap(); }
+    let dir: PathBuf = DIR.with(|d| d.path().to_path_buf());
+    let f = dir.join("hard_state.bin");
+    let _ = std::fs::remove_file(&f);
     if let Some(b) = img {
-        std::fs::write(d.path().join("hard_state.bin"), b).unwrap();
+        std::fs::write(&f, b).unwrap();
     }
-    match FileMetaStore::new(d.path().to_path_buf()) {
+    match FileMetaStore::new(dir) {
         Err(_) => "open-err".into(),
         Ok(s) => match s.load_hard_state() {
             Ok(h) => show_hs(&h),
@@ -163,10 +167,10 @@ fn exec_rocks(ops: &str) -> String {
         let img = d.path().join(format!("img{k}"));
         copy_dir(&live, &img);
         parts.push(format!("ret:{}", rocks_load(&img)));
-        // torn WAL tail (power loss inside the unsynced append): cut 1 byte / half / all-but-one of the new record
+        // torn WAL tail (power loss inside the unsynced append): cut the last byte / the whole new record
         let rec = wal_after.saturating_sub(wal_before);
         let mut torn = vec![];
-        for cut in [1u64, rec / 2, rec.saturating_sub(1), rec] {
+        for cut in [1u64, rec] {
             if cut == 0 || cut > rec { continue; }
             let t = d.path().join(format!("torn{k}_{cut}"));
             copy_dir(&live, &t);
@@ -268,7 +272,7 @@ fn generate(r: &mut Rng, n: usize, tier: &str) -> Vec<String> {
         "eng=rocks|1/-;2/3/2/1".to_string(),
         "eng=dec|-".to_string(),
     ];
-    let rocks_every = if tier == "thorough" { 12 } else { 25 };
+    let rocks_every = if tier == "thorough" { 15 } else { 60 };
     for i in 0..n {
         let k = 1 + r.below(4) as usize;
         let saves: Vec<String> = (0..k).map(|_| gen_hs(r)).collect();
